@@ -247,7 +247,8 @@ class Gen:
             if k <= 1: return ['all']
             if k == 2: return ['eq', vent('Action', r.choice(['view', 'edit']))]
             if k == 3: return ['in', vent('Action', r.choice(['view', 'edit', 'all']))]
-            return ['inset'] + [vent('Action', r.choice(['view', 'edit', 'all'])) for _ in range(r.randrange(0, 3))]
+            # lists of 0-6 entries, repeats included (a list is a list: order and multiplicity are part of the policy)
+            return ['inset'] + [vent('Action', r.choice(['view', 'edit', 'all', 'x y'])) for _ in range(r.choice([0, 1, 2, 2, 3, 4, 6]))]
         if k <= 1: return ['all']
         if k == 2: return ['eq', self.uid()]
         if k == 3: return ['in', self.uid()]
@@ -287,7 +288,10 @@ IP_STRS = ['127.0.0.1', '127.0.0.1/8', '10.0.0.0/24', '224.0.0.1', '224.0.0.0/4'
            '1.2.3', '1.2.3.4.5', '01.2.3.4', '256.1.1.1', '1.2.3.4/33', '1.2.3.4/', '1.2.3.4/08', '1.2.3.4/+8', '::1', '::', '::1/128',
            'ff00::/8', 'ff00::1', '2001:db8::1', '2001:db8::/32', '1:2:3:4:5:6:7:8', '1:2:3:4:5:6:7:8:9', '1:2:3:4:5:6:7', '::1:2:3:4:5:6:7:8',
            '1::2::3', '12345::1', 'g::1', '::ffff:7f00:1', '::ffff:1.2.3.4', 'fe80::1%eth0', '::1/129', '1::', ':1', '1:', '', '1.2.3.4 ',
-           'ABCD::ef01', '::ffff:e000:1', '0:0:0:0:0:0:0:1', '::1/0']
+           'ABCD::ef01', '::ffff:e000:1', '0:0:0:0:0:0:0:1', '::1/0',
+           # a dotted IPv4 tail inside an IPv6 literal is never accepted, however many colons precede it
+           '::1.2.3.4', '::1.2.3.4/100', '1::1.2.3.4', ':1.2.3.4', '1:1.2.3.4', '64:ff9b::1.2.3.4', '1:2:3:4:5:6:1.2.3.4', '1:2:3:4:5:6:7:1.2.3.4', '::1.2', '::1.2.3',
+           '1:2.3.4.5', '::ffff:1.2.3.4/128', '::ffff:0:1.2.3.4', '1::2:1.2.3.4', '1.2.3.4::', '1.2.3.4:5', '::.1', '::1.', '::1..2']
 
 
 EXPR_HEADS = {'lit', 'var', 'and', 'or', 'not', 'neg', 'add', 'sub', 'mul', 'eq', 'ne', 'lt', 'le', 'gt', 'ge', 'in', 'contains', 'containsAll', 'containsAny',
